@@ -57,9 +57,45 @@ def check_result(rep, rid, mod, opname, desc, heap, list_head, expected, frame=(
     for m in msgs[:2]:
         rep.violate(Violation(rid, where, '%s applied to %s: %s' % (opname, desc, m), site='%s/shape' % opname))
 
+class _Tracking(ShapeInterp):
+    """records, per list function, whether some interpreted call returned NULL (for the attribute contracts of R6)"""
+    def __init__(self, mod):
+        ShapeInterp.__init__(self, mod)
+        self.null_returns = {}
+    def call(self, fname, args, heap):
+        out = ShapeInterp.call(self, fname, args, heap)
+        for h2, rv in out:
+            if rv is None:
+                self.null_returns.setdefault(fname, args)
+        return out
+
+def check_attribute_contracts(mod, si, rep, rid):
+    """R6 - the list functions promise the optimiser no more than their bodies keep.  A declaration attribute (const, pure, returns_nonnull)
+    is part of the implementation: callers compiled with optimisation reuse results across mutations, or drop NULL tests, on the strength of it,
+    so the traversals no longer yield the abstract sequence although dll.c itself is unchanged.  Compared with the IR of the definitions:
+    'readnone' (const) needs a body without loads, 'readonly'/'readnone' a body without stores, 'nonnull' results no NULL-returning path
+    (taken from the shape interpretation above, i.e. for the documented preconditions including e = NULL and the empty list)."""
+    for f in sorted(mod.defined.values(), key=lambda f: f.name):
+        if not (f.file or '').endswith('dll.c'):
+            continue
+        loads = [i for i in f.real_insts() if i.op == 'load']
+        stores = [i for i in f.real_insts() if i.op == 'store']
+        calls = [i for i in f.real_insts() if i.op == 'call' and i.callee and not i.callee.startswith('llvm.')]
+        problems = []
+        if 'readnone' in f.fattrs and (loads or stores or calls):
+            problems.append(('declared __attribute__((const)) (no memory access) but its body %s: an optimising caller reuses a result computed before a list mutation'
+                             % ('reads list links' if loads else 'writes or calls'), (loads or stores or calls)[0]))
+        if 'readonly' in f.fattrs and stores:
+            problems.append(('declared __attribute__((pure)) but its body writes list links', stores[0]))
+        if 'nonnull' in f.rattrs and f.name in si.null_returns:
+            problems.append(('declared returns_nonnull but returns NULL for arguments %s: an optimising caller deletes its emptiness test' % (si.null_returns[f.name],), f.entry.insts[0]))
+        rep.instance(rid, '%s: attributes %s %s' % (f.name, list(f.fattrs), list(f.rattrs))); rep.oblig(rid, not problems)
+        for msg, at in problems:
+            rep.violate(Violation(rid, at.where(), '%s is %s' % (f.name, msg), site='%s/attribute-contract' % f.name))
+
 def run(ctx, rep):
     mod = ctx.mod('C')
-    si = ShapeInterp(mod)
+    si = _Tracking(mod)
     rep.rule('C17.R1', 'remove: A.e.B -> A.B, e self-linked, for all shapes')
     rep.rule('C17.R2', 'splice_after: p.P , n.N -> p.n.N.P')
     rep.rule('C17.R3', 'make_first: L , e.E -> e.E ++ L')
@@ -144,6 +180,9 @@ def run(ctx, rep):
                     acc('nsync_dll_next_', [lst, first], lambda h2: expand(h2, L)[1])
             if len(L) > 1:
                 acc('nsync_dll_prev_', [lst, lst], lambda h2: expand(h2, L)[-2])
+    rep.rule('C17.R6', 'declaration attributes of the list functions (const / pure / returns_nonnull) promise no more than the bodies keep')
+    check_attribute_contracts(mod, si, rep, 'C17.R6')
+    rep.floor('C17.R6', 8)
     rep.floor('C17.R1', 16)
     rep.floor('C17.R2', 16)
     rep.floor('C17.R3', 16)
